@@ -25,6 +25,8 @@ def gen_case(rnd, i, thorough):
     case = _gen_case(rnd, i, thorough)
     if rnd.random() < 0.25:
         case["warmup"] = rnd.choice([1, 2, 5, 11])
+    if rnd.random() < 0.3:
+        case["decoy"] = rnd.choice(["build", "use"])
     return case
 
 
@@ -132,6 +134,8 @@ def check_case(ctx, case):
         ctx.fail(f"{model}: constructor raised {og.etype} on a valid parameter set", case, {"msg": str(og.exc)[:300]})
         return
     g = og.value
+    if case.get("decoy") and "slate_to_candidates" in p and not case.get("from_params"):
+        ctx.count("decoy_generators_built" if bp.make_decoy(model, p, extra, use=case["decoy"] == "use") else "decoy_raised")
     if case.get("warmup"):
         # the SAME generator object is first asked for another profile (other size, plain entry point); what is judged
         # below is its second answer - anything the first request left behind in the object shows there
